@@ -287,12 +287,17 @@ impl Counts {
             self.num_send_streams
         );
 
+        // The stream was counted as a locally reset stream for as long as it
+        // sat in the reset expiration queue: un-count it once it has left
+        // that queue, closed or not (the RST_STREAM may still be waiting to
+        // be written when the reset expires).
+        if is_reset_counted && !stream.is_pending_reset_expiration() {
+            self.dec_num_reset_streams();
+        }
+
         if stream.is_closed() {
             if !stream.is_pending_reset_expiration() {
                 stream.unlink();
-                if is_reset_counted {
-                    self.dec_num_reset_streams();
-                }
             }
 
             if !stream.state.is_scheduled_reset() && stream.is_counted {
